@@ -23,6 +23,7 @@ def run(chk, prog, tier):
     SUCC.sibling_guard_rule(chk, prog)
     SUCC.class_rules(chk, prog)
     SUCC.bare_rex_rule(chk, prog)
+    SUCC.implicit_keyword_rule(chk, prog)
     from valib import pipeline as PLo
     PLo.prefix_after_rewrite_rule(chk, prog)
     from valib import pipeline as PL
